@@ -821,4 +821,954 @@ theorem encode_det (L : Layer) (rules : AList NT (AList DP (List NT))) (start : 
 
 end Encode
 
+/-! ### the unambiguous layer, one non-terminal -/
+section ULayer
+
+abbrev TagsU := AList DP (AList Alt ℝ)
+
+/-- `Σ exp t` over one inner dict -/
+noncomputable def inner (d : AList Alt ℝ) : ℝ := wsum (fun _ t => Real.exp t) d
+
+/-- selective mass `Σ_{(P,d) ∈ T, sel P} Σ_{(k,t) ∈ d} exp t` -/
+noncomputable def massU' (sel : DP → Bool) (T : TagsU) : ℝ :=
+  wsum (fun P d => if sel P then inner d else 0) T
+
+/-- `tags[S][P].get(k)` -/
+def innerLookup (T : TagsU) (P : DP) (k : Alt) : Option ℝ :=
+  AList.lookup k ((AList.lookup P T).getD [])
+
+theorem inner_nonneg (d : AList Alt ℝ) : 0 ≤ inner d := by
+  unfold inner wsum
+  apply List.sum_nonneg
+  intro x hx
+  simp only [List.mem_map] at hx
+  obtain ⟨e, _, rfl⟩ := hx
+  exact Real.exp_nonneg _
+
+theorem massU_eq (T : TagsU) : massU T = massU' (fun _ => true) T := by
+  unfold massU massU' inner wsum
+  rw [sumL_eq]
+  congr 1
+  apply List.map_congr_left
+  intro e _
+  rw [sumL_eq]; simp
+
+theorem massU'_setInner (sel : DP → Bool) (T : TagsU) (P : DP) (k : Alt) (t : ℝ)
+    (h : innerLookup T P k = none) :
+    massU' sel (setInner T P k t) = massU' sel T + (if sel P then Real.exp t else 0) := by
+  unfold innerLookup at h
+  unfold massU' setInner
+  rw [wsum_insert]
+  have hin : inner (AList.insert k t ((AList.lookup P T).getD [])) = inner ((AList.lookup P T).getD []) + Real.exp t := by
+    unfold inner; rw [wsum_insert]; simp [h]
+  cases hl : AList.lookup P T with
+  | none =>
+    rw [hl] at hin
+    simp only [hl, Option.getD_none, Option.map_none] at hin ⊢
+    rw [hin]; simp [inner]
+  | some old =>
+    rw [hl] at hin
+    simp only [hl, Option.getD_some, Option.map_some] at hin ⊢
+    rw [hin]
+    by_cases hs : sel P
+    · simp only [hs, if_true]; ring
+    · simp [hs]
+
+theorem innerLookup_setInner (T : TagsU) (P : DP) (k : Alt) (t : ℝ) (P' : DP) (k' : Alt) :
+    innerLookup (setInner T P k t) P' k' = if P' = P ∧ k' = k then some t else innerLookup T P' k' := by
+  unfold innerLookup setInner
+  by_cases hP : P' = P
+  · subst hP
+    rw [AList.lookup_insert_self]
+    simp only [Option.getD_some, true_and]
+    rw [AList.lookup_insert]
+  · rw [AList.lookup_insert_ne _ _ hP]; simp [hP]
+
+/-- the two nested loops over variables as one loop over (P, alternative) pairs -/
+noncomputable def assignPairs (tvo : Bool) (ε : ℝ) : List (DP × Alt) → ℝ → TagsU → TagsU × ℝ
+  | [], nvl, T => (T, nvl)
+  | (P, k) :: r, nvl, T =>
+    assignPairs tvo ε r (if tvo then ExpLog.log (ExpLog.exp nvl - ε) else nvl) (setInner T P k nvl)
+
+def pairsOf (l : List (DP × List Alt)) : List (DP × Alt) := l.flatMap (fun p => p.2.map (fun k => (p.1, k)))
+
+theorem assignPairs_append (tvo : Bool) (ε : ℝ) (l1 l2 : List (DP × Alt)) (nvl : ℝ) (T : TagsU) :
+    assignPairs tvo ε (l1 ++ l2) nvl T
+      = assignPairs tvo ε l2 (assignPairs tvo ε l1 nvl T).2 (assignPairs tvo ε l1 nvl T).1 := by
+  induction l1 generalizing nvl T with
+  | nil => rfl
+  | cons p r ih => obtain ⟨P, k⟩ := p; simp only [List.cons_append, assignPairs]; exact ih _ _
+
+theorem assignAltsU_eq (tvo : Bool) (ε : ℝ) (P : DP) (alts : List Alt) (nvl : ℝ) (T : TagsU) :
+    assignAltsU tvo ε P alts nvl T = assignPairs tvo ε (alts.map (fun k => (P, k))) nvl T := by
+  induction alts generalizing nvl T with
+  | nil => rfl
+  | cons k r ih => simp only [assignAltsU, List.map_cons, assignPairs]; exact ih _ _
+
+theorem assignVarsU_eq (tvo : Bool) (ε : ℝ) (vars : List (DP × List Alt)) (nvl : ℝ) (T : TagsU) :
+    assignVarsU tvo ε vars nvl T = assignPairs tvo ε (pairsOf vars) nvl T := by
+  induction vars generalizing nvl T with
+  | nil => rfl
+  | cons p r ih =>
+    obtain ⟨P, alts⟩ := p
+    simp only [assignVarsU, pairsOf, List.flatMap_cons]
+    rw [assignPairs_append, ← assignAltsU_eq]
+    exact ih _ _
+
+noncomputable def constPairs : List (DP × Alt) → ℝ → TagsU → TagsU
+  | [], _, T => T
+  | (P, k) :: r, nvl, T => constPairs r nvl (setInner T P k nvl)
+
+theorem constPairs_append (l1 l2 : List (DP × Alt)) (nvl : ℝ) (T : TagsU) :
+    constPairs (l1 ++ l2) nvl T = constPairs l2 nvl (constPairs l1 nvl T) := by
+  induction l1 generalizing T with
+  | nil => rfl
+  | cons p r ih => obtain ⟨P, k⟩ := p; simp only [List.cons_append, constPairs]; exact ih _
+
+theorem foldl_setInner_eq (P : DP) (alts : List Alt) (nvl : ℝ) (T : TagsU) :
+    alts.foldl (fun T k => setInner T P k nvl) T = constPairs (alts.map (fun k => (P, k))) nvl T := by
+  induction alts generalizing T with
+  | nil => rfl
+  | cons k r ih => simp only [List.foldl_cons, List.map_cons, constPairs]; exact ih _
+
+theorem assignConstsU_eq (consts : List (DP × List Alt)) (nvl : ℝ) (T : TagsU) :
+    assignConstsU consts nvl T = constPairs (pairsOf consts) nvl T := by
+  induction consts generalizing T with
+  | nil => rfl
+  | cons p r ih =>
+    obtain ⟨P, alts⟩ := p
+    simp only [assignConstsU, pairsOf, List.flatMap_cons]
+    rw [constPairs_append, ← foldl_setInner_eq]
+    exact ih _
+
+theorem assignPairs_spec (tvo : Bool) (ε : ℝ) (hε : 0 ≤ ε) (sel : DP → Bool) (b : Bool) :
+    ∀ (ps : List (DP × Alt)) (nvl : ℝ) (T : TagsU),
+      ps.Nodup → (∀ p ∈ ps, innerLookup T p.1 p.2 = none) → (∀ p ∈ ps, sel p.1 = b) →
+      (ps.length : ℝ) * eff tvo ε < Real.exp nvl →
+      massU' sel (assignPairs tvo ε ps nvl T).1
+          = massU' sel T + (if b then (ps.length : ℝ) * Real.exp nvl - eff tvo ε * tri ps.length else 0)
+      ∧ Real.exp (assignPairs tvo ε ps nvl T).2 = Real.exp nvl - ps.length * eff tvo ε
+      ∧ (∀ q, q ∉ ps → innerLookup (assignPairs tvo ε ps nvl T).1 q.1 q.2 = innerLookup T q.1 q.2) := by
+  have heff : 0 ≤ eff tvo ε := by unfold eff; split <;> simp [hε]
+  intro ps
+  induction ps with
+  | nil => intro nvl T _ _ _ _; simp [assignPairs, tri]
+  | cons p r ih =>
+    obtain ⟨P, k⟩ := p
+    intro nvl T hnd hfresh hsel hb
+    have hnd' := List.nodup_cons.mp hnd
+    have hlen : (((P, k) :: r).length : ℝ) = (r.length : ℝ) + 1 := by simp
+    rw [hlen] at hb
+    have hr0 : (0 : ℝ) ≤ r.length := Nat.cast_nonneg _
+    have h1 : eff tvo ε < Real.exp nvl := by nlinarith
+    have hnext := next_nvl tvo ε nvl h1
+    have hfreshP : innerLookup T P k = none := hfresh (P, k) (by simp)
+    have hfresh' : ∀ q ∈ r, innerLookup (setInner T P k nvl) q.1 q.2 = none := by
+      intro q hq
+      rw [innerLookup_setInner]
+      have hne : ¬ (q.1 = P ∧ q.2 = k) := by
+        intro h; apply hnd'.1
+        have : q = (P, k) := Prod.ext h.1 h.2
+        rw [← this]; exact hq
+      simp only [hne, if_false]
+      exact hfresh q (by simp [hq])
+    have hb' : (r.length : ℝ) * eff tvo ε
+        < Real.exp (if tvo then ExpLog.log (ExpLog.exp nvl - ε) else nvl) := by
+      rw [hnext]; nlinarith
+    obtain ⟨i1, i2, i3⟩ := ih (if tvo then ExpLog.log (ExpLog.exp nvl - ε) else nvl) (setInner T P k nvl)
+      hnd'.2 hfresh' (fun q hq => hsel q (by simp [hq])) hb'
+    simp only [assignPairs]
+    refine ⟨?_, ?_, ?_⟩
+    · rw [i1, massU'_setInner sel T P k nvl hfreshP, hsel (P, k) (by simp), hnext]
+      cases b with
+      | false => simp
+      | true =>
+        simp only [if_true, List.length_cons, tri_succ]
+        push_cast; ring
+    · rw [i2, hnext, hlen]; ring
+    · intro q hq
+      have hq' : q ≠ (P, k) ∧ q ∉ r := by simpa [List.mem_cons, not_or] using hq
+      rw [i3 q hq'.2, innerLookup_setInner]
+      have hne : ¬ (q.1 = P ∧ q.2 = k) := by
+        intro h; exact hq'.1 (Prod.ext h.1 h.2)
+      simp [hne]
+
+theorem constPairs_spec (sel : DP → Bool) (b : Bool) :
+    ∀ (ps : List (DP × Alt)) (nvl : ℝ) (T : TagsU),
+      ps.Nodup → (∀ p ∈ ps, innerLookup T p.1 p.2 = none) → (∀ p ∈ ps, sel p.1 = b) →
+      massU' sel (constPairs ps nvl T) = massU' sel T + (if b then (ps.length : ℝ) * Real.exp nvl else 0) := by
+  intro ps
+  induction ps with
+  | nil => intro nvl T _ _ _; simp [constPairs]
+  | cons p r ih =>
+    obtain ⟨P, k⟩ := p
+    intro nvl T hnd hfresh hsel
+    have hnd' := List.nodup_cons.mp hnd
+    have hfresh' : ∀ q ∈ r, innerLookup (setInner T P k nvl) q.1 q.2 = none := by
+      intro q hq
+      rw [innerLookup_setInner]
+      have hne : ¬ (q.1 = P ∧ q.2 = k) := by
+        intro h; apply hnd'.1
+        have : q = (P, k) := Prod.ext h.1 h.2
+        rw [← this]; exact hq
+      simp only [hne, if_false]
+      exact hfresh q (by simp [hq])
+    simp only [constPairs]
+    rw [ih nvl _ hnd'.2 hfresh' (fun q hq => hsel q (by simp [hq])),
+      massU'_setInner sel T P k nvl (hfresh (P, k) (by simp)), hsel (P, k) (by simp)]
+    cases b with
+    | false => simp
+    | true => simp only [if_true, List.length_cons]; push_cast; ring
+
+theorem nAlts_eq (l : List (DP × List Alt)) : nAlts l = (pairsOf l).length := by
+  unfold nAlts pairsOf
+  rw [← List.sum_eq_foldl, List.length_flatMap]
+  simp
+
+theorem innerLookup_addAll (T : TagsU) (a : ℝ) (P : DP) (k : Alt) :
+    innerLookup (addAllU T a) P k = (innerLookup T P k).map (· + a) := by
+  unfold innerLookup addAllU
+  rw [lookup_map_val (fun (d : AList Alt ℝ) => d.map (fun z => (z.1, z.2 + a))) P T]
+  cases AList.lookup P T with
+  | none => simp [AList.lookup]
+  | some d =>
+    simp only [Option.map_some, Option.getD_some]
+    exact lookup_map_val (fun t : ℝ => t + a) k d
+
+theorem inner_map_add (a : ℝ) (d : AList Alt ℝ) :
+    inner (d.map (fun z => (z.1, z.2 + a))) = Real.exp a * inner d := by
+  induction d with
+  | nil => simp [inner]
+  | cons p r ih =>
+    simp only [inner, List.map_cons, wsum_cons] at ih ⊢
+    rw [ih, Real.exp_add]; ring
+
+theorem massU'_addAll (sel : DP → Bool) (bp : Bool) (a : ℝ) (T : TagsU)
+    (hsel : ∀ e ∈ T, e.2 ≠ [] → sel e.1 = bp) :
+    massU' sel (addAllU T a) = if bp then Real.exp a * massU' (fun _ => true) T else 0 := by
+  induction T with
+  | nil => simp [massU', addAllU]
+  | cons p r ih =>
+    have ih' := ih (fun e he hne => hsel e (by simp [he]) hne)
+    simp only [massU', addAllU, List.map_cons, wsum_cons] at ih' ⊢
+    rw [ih', inner_map_add]
+    by_cases hp : p.2 = []
+    · simp only [hp, inner, wsum_nil, mul_zero, ite_self, zero_add, if_true]
+    · have := hsel p (by simp) hp
+      rw [this]
+      cases bp with
+      | false => simp
+      | true => simp only [if_true]; ring
+
+theorem addAllU_zero (T : TagsU) : addAllU T 0 = T := by
+  unfold addAllU
+  have hid : (fun z : Alt × ℝ => (z.1, z.2 + 0)) = id := by funext z; simp
+  simp [hid]
+
+theorem massU'_of_sel (sel : DP → Bool) (bp : Bool) (T : TagsU)
+    (hsel : ∀ e ∈ T, e.2 ≠ [] → sel e.1 = bp) :
+    massU' sel T = if bp then massU' (fun _ => true) T else 0 := by
+  have := massU'_addAll sel bp 0 T hsel
+  rw [addAllU_zero] at this
+  simpa using this
+
+/-- value of the variable/constant mass: `v` when the primitive rules have mass -/
+noncomputable def vpOfU (v : ℝ) (tags0 : TagsU) : ℝ := if 0 < massU' (fun _ => true) tags0 then v else 1
+
+theorem massU'_nonneg (T : TagsU) : 0 ≤ massU' (fun _ => true) T := by
+  unfold massU' wsum
+  apply List.sum_nonneg
+  intro x hx
+  simp only [List.mem_map] at hx
+  obtain ⟨e, _, rfl⟩ := hx
+  simp [inner_nonneg]
+
+/-- the master lemma for one non-terminal of the unambiguous layer (variables or constants exist) -/
+theorem tagNTU_mass_vars (v ε : ℝ) (tvo : Bool) (tags0 : TagsU) (vars consts : List (DP × List Alt))
+    (hv0 : 0 < v) (hv1 : v < 1) (hε : 0 ≤ ε)
+    (hnd : (pairsOf vars ++ pairsOf consts).Nodup)
+    (hfresh : ∀ p ∈ pairsOf vars ++ pairsOf consts, innerLookup tags0 p.1 p.2 = none)
+    (hvc : vars ≠ [] ∨ consts ≠ [])
+    (hMC : 0 < nAlts vars + nAlts consts)
+    (heps : (nAlts vars : ℝ) * eff tvo ε * (nAlts vars + nAlts consts) < vpOfU v tags0)
+    (sel : DP → Bool) (bp b : Bool)
+    (hselp : ∀ e ∈ tags0, e.2 ≠ [] → sel e.1 = bp)
+    (hselv : ∀ p ∈ pairsOf vars ++ pairsOf consts, sel p.1 = b) :
+    massU' sel (tagNTU v ε tvo tags0 vars consts)
+      = (if bp then 1 - vpOfU v tags0 else 0)
+        + (if b then vpOfU v tags0 - eff tvo ε * (tri (nAlts vars) + nAlts consts * nAlts vars) else 0) := by
+  have heff : 0 ≤ eff tvo ε := by unfold eff; split <;> simp [hε]
+  set m := nAlts vars with hm
+  set c := nAlts consts with hc
+  have hmc : (0 : ℝ) < (m : ℝ) + c := by exact_mod_cast hMC
+  have hnd1 := List.nodup_append.mp hnd
+  have hcond : (!vars.isEmpty || !consts.isEmpty) = true := by
+    rcases hvc with h | h
+    · cases vars with
+      | nil => exact absurd rfl h
+      | cons _ _ => simp
+    · cases consts with
+      | nil => exact absurd rfl h
+      | cons _ _ => simp
+  unfold tagNTU
+  simp only [hcond, if_true]
+  rw [massU_eq]
+  set tot := massU' (fun _ => true) tags0 with htot
+  set tv : TagsU × ℝ :=
+    (if ExpLog.pos tot = true then (addAllU tags0 (ExpLog.log ((ExpLog.ofNat 1 - v) / tot)), v)
+     else (tags0, ExpLog.ofNat 1)) with htv
+  have htv2 : tv.2 = vpOfU v tags0 := by
+    by_cases hp : 0 < tot
+    · have hpos : ExpLog.pos tot = true := (pos_real _).mpr hp
+      simp only [htv, hpos, if_true, vpOfU, ← htot, hp]
+    · have hpos : ¬ ExpLog.pos tot = true := fun h => hp ((pos_real _).mp h)
+      simp only [htv, hpos, Bool.false_eq_true, if_false, vpOfU, ← htot, hp, ofNat_real, Nat.cast_one]
+  have hfreshT : ∀ p ∈ pairsOf vars ++ pairsOf consts, innerLookup tv.1 p.1 p.2 = none := by
+    intro p hp
+    by_cases hpos : ExpLog.pos tot = true
+    · simp only [htv, hpos, if_true]; rw [innerLookup_addAll, hfresh p hp]; rfl
+    · simp only [htv, hpos, Bool.false_eq_true, if_false]; exact hfresh p hp
+  have htv1 : massU' sel tv.1 = if bp then 1 - vpOfU v tags0 else 0 := by
+    by_cases hp : 0 < tot
+    · have hpos : ExpLog.pos tot = true := (pos_real _).mpr hp
+      simp only [htv, hpos, if_true]
+      rw [massU'_addAll sel bp _ tags0 hselp]
+      simp only [vpOfU, ← htot, hp, if_true, log_real, ofNat_real, Nat.cast_one]
+      cases bp with
+      | false => simp
+      | true =>
+        simp only [if_true]
+        rw [Real.exp_log (by apply div_pos <;> linarith)]
+        have hne : tot ≠ 0 := ne_of_gt hp
+        field_simp
+    · have hpos : ¬ ExpLog.pos tot = true := fun h => hp ((pos_real _).mp h)
+      simp only [htv, hpos, Bool.false_eq_true, if_false]
+      rw [massU'_of_sel sel bp tags0 hselp]
+      have h0 : tot = 0 := le_antisymm (not_lt.mp hp) (massU'_nonneg tags0)
+      simp only [vpOfU, ← htot, hp, if_false, h0]
+      cases bp <;> simp
+  have hvp : 0 < vpOfU v tags0 := by unfold vpOfU; split <;> linarith
+  set nvl : ℝ := ExpLog.log (tv.2 / ExpLog.ofNat (m + c)) with hnvl
+  have hq : Real.exp nvl = vpOfU v tags0 / ((m : ℝ) + c) := by
+    simp only [hnvl, log_real, ofNat_real, htv2]
+    push_cast
+    rw [Real.exp_log (div_pos hvp hmc)]
+  have hlenV : (pairsOf vars).length = m := (nAlts_eq vars).symm
+  have hlenC : (pairsOf consts).length = c := (nAlts_eq consts).symm
+  have hbound : ((pairsOf vars).length : ℝ) * eff tvo ε < Real.exp nvl := by
+    rw [hlenV, hq, lt_div_iff₀ hmc]; exact heps
+  rw [assignVarsU_eq, assignConstsU_eq]
+  obtain ⟨a1, a2, a3⟩ := assignPairs_spec tvo ε hε sel b (pairsOf vars) nvl tv.1 hnd1.1
+    (fun p hp => hfreshT p (by simp [hp])) (fun p hp => hselv p (by simp [hp])) hbound
+  have hfreshC : ∀ p ∈ pairsOf consts, innerLookup (assignPairs tvo ε (pairsOf vars) nvl tv.1).1 p.1 p.2 = none := by
+    intro p hp
+    have hnot : p ∉ pairsOf vars := fun h => hnd1.2.2 p h p hp rfl
+    rw [a3 p hnot]
+    exact hfreshT p (by simp [hp])
+  rw [constPairs_spec sel b (pairsOf consts) _ _ hnd1.2.1 hfreshC (fun p hp => hselv p (by simp [hp])),
+    a1, htv1, a2, hq, hlenV, hlenC]
+  cases b with
+  | false => simp
+  | true =>
+    simp only [if_true]
+    have hne : ((m : ℝ) + c) ≠ 0 := ne_of_gt hmc
+    field_simp
+    ring
+
+theorem tagNTU_mass_novars (v ε : ℝ) (tvo : Bool) (tags0 : TagsU)
+    (hpos : 0 < massU' (fun _ => true) tags0)
+    (sel : DP → Bool) (bp : Bool) (hselp : ∀ e ∈ tags0, e.2 ≠ [] → sel e.1 = bp) :
+    massU' sel (tagNTU v ε tvo tags0 [] []) = if bp then 1 else 0 := by
+  unfold tagNTU
+  simp only [List.isEmpty_nil, Bool.not_true, Bool.or_self, Bool.false_eq_true, if_false]
+  rw [massU_eq, massU'_addAll sel bp _ tags0 hselp]
+  cases bp with
+  | false => simp
+  | true =>
+    simp only [if_true, log_real, ofNat_real, Nat.cast_one]
+    rw [Real.exp_log (by positivity)]
+    field_simp
+
+/-! #### what `primTagsU` builds -/
+
+theorem mem_insert {κ ν : Type} [DecidableEq κ] {k : κ} {v : ν} {d : AList κ ν} {e : κ × ν}
+    (h : e ∈ AList.insert k v d) : e = (k, v) ∨ e ∈ d := by
+  induction d with
+  | nil => simp [AList.insert] at h; exact Or.inl h
+  | cons p r ih =>
+    obtain ⟨k', v'⟩ := p
+    by_cases hk : k' = k
+    · simp only [AList.insert, hk, if_true, List.mem_cons] at h
+      rcases h with h | h
+      · exact Or.inl h
+      · exact Or.inr (by simp [h])
+    · simp only [AList.insert, hk, if_false, List.mem_cons] at h
+      rcases h with h | h
+      · exact Or.inr (by simp [h])
+      · rcases ih h with h' | h'
+        · exact Or.inl h'
+        · exact Or.inr (by simp [h'])
+
+theorem lookup_setInner_ne (T : TagsU) (P Q : DP) (k : Alt) (t : ℝ) (h : Q ≠ P) :
+    AList.lookup Q (setInner T P k t) = AList.lookup Q T := by
+  unfold setInner; exact AList.lookup_insert_ne _ _ h
+
+theorem lookup_foldl_setInner_ne (P Q : DP) (t : ℝ) (h : Q ≠ P) :
+    ∀ (alts : List Alt) (T : TagsU),
+      AList.lookup Q (alts.foldl (fun T k => setInner T P k t) T) = AList.lookup Q T := by
+  intro alts
+  induction alts with
+  | nil => intro T; rfl
+  | cons k r ih => intro T; simp only [List.foldl_cons]; rw [ih, lookup_setInner_ne _ _ _ _ _ h]
+
+theorem lookup_foldl_setInner_self (P : DP) (t : ℝ) :
+    ∀ (alts : List Alt) (T : TagsU), alts ≠ [] →
+      ∃ d, AList.lookup P (alts.foldl (fun T k => setInner T P k t) T) = some d ∧ d ≠ [] := by
+  intro alts
+  induction alts with
+  | nil => intro T h; exact absurd rfl h
+  | cons k r ih =>
+    intro T _
+    simp only [List.foldl_cons]
+    by_cases hr : r = []
+    · subst hr
+      simp only [List.foldl_nil, setInner]
+      refine ⟨_, AList.lookup_insert_self _ _ _, ?_⟩
+      intro h
+      have := AList.lookup_insert_self k t ((AList.lookup P T).getD [])
+      rw [h] at this; simp [AList.lookup] at this
+    · exact ih _ hr
+
+theorem mem_foldl_setInner (P : DP) (t : ℝ) :
+    ∀ (alts : List Alt) (T : TagsU) (e : DP × AList Alt ℝ),
+      e ∈ alts.foldl (fun T k => setInner T P k t) T → e.1 = P ∨ e ∈ T := by
+  intro alts
+  induction alts with
+  | nil => intro T e h; exact Or.inr h
+  | cons k r ih =>
+    intro T e h
+    simp only [List.foldl_cons] at h
+    rcases ih _ e h with h' | h'
+    · exact Or.inl h'
+    · unfold setInner at h'
+      rcases mem_insert h' with h'' | h''
+      · left; rw [h'']
+      · exact Or.inr h''
+
+/-- invariants of the first loop of the U-layer -/
+theorem primTagsU_inv (sym : AList DP Nat) (y : List ℝ) :
+    ∀ (rows : List (DP × List Alt)) (T T' : TagsU), primTagsU sym y rows T = some T' →
+      ((∀ Q : DP, Q.kind ≠ .prim → (AList.lookup Q T).getD [] = []) →
+        (∀ Q : DP, Q.kind ≠ .prim → (AList.lookup Q T').getD [] = []))
+      ∧ ((∀ e ∈ T, e.2 ≠ [] → e.1.kind = .prim) → (∀ e ∈ T', e.2 ≠ [] → e.1.kind = .prim))
+      ∧ ((∀ e ∈ T, e.2 = []) → (∀ r ∈ rows, r.1.kind = .prim → r.2 = []) → (∀ e ∈ T', e.2 = []))
+      ∧ (∀ Q : DP, Q ∉ rows.map (·.1) → AList.lookup Q T' = AList.lookup Q T) := by
+  intro rows
+  induction rows with
+  | nil =>
+    intro T T' h; simp [primTagsU] at h; subst h
+    exact ⟨fun h => h, fun h => h, fun h _ => h, fun _ _ => rfl⟩
+  | cons row rest ih =>
+    obtain ⟨P, alts⟩ := row
+    intro T T' h
+    simp only [primTagsU] at h
+    -- state after `tags[S][P] = {}`
+    have hT1a : ∀ Q : DP, (∀ Q : DP, Q.kind ≠ .prim → (AList.lookup Q T).getD [] = []) → Q.kind ≠ .prim →
+        (AList.lookup Q (AList.insert P ([] : AList Alt ℝ) T)).getD [] = [] := by
+      intro Q hT hQ
+      rw [AList.lookup_insert]
+      by_cases hQP : Q = P
+      · simp [hQP]
+      · simp only [hQP, if_false]; exact hT Q hQ
+    have hT1b : (∀ e ∈ T, e.2 ≠ [] → e.1.kind = .prim) →
+        ∀ e ∈ AList.insert P ([] : AList Alt ℝ) T, e.2 ≠ [] → e.1.kind = .prim := by
+      intro hT e he hne
+      rcases mem_insert he with h' | h'
+      · rw [h'] at hne; exact absurd rfl hne
+      · exact hT e h' hne
+    have hT1c : (∀ e ∈ T, e.2 = []) → ∀ e ∈ AList.insert P ([] : AList Alt ℝ) T, e.2 = [] := by
+      intro hT e he
+      rcases mem_insert he with h' | h'
+      · rw [h']
+      · exact hT e h'
+    have hT1d : ∀ Q : DP, Q ≠ P → AList.lookup Q (AList.insert P ([] : AList Alt ℝ) T) = AList.lookup Q T :=
+      fun Q hQ => AList.lookup_insert_ne _ _ hQ
+    by_cases hk : P.kind = .prim
+    · simp only [hk, if_true] at h
+      cases hs : sym.lookup P with
+      | none => simp [hs] at h
+      | some i =>
+        simp only [hs] at h
+        cases alts with
+        | nil =>
+          simp only [] at h
+          obtain ⟨i1, i2, i3, i4⟩ := ih _ _ h
+          refine ⟨fun hT => i1 (fun Q hQ => hT1a Q hT hQ), fun hT => i2 (hT1b hT),
+            fun hT hr => i3 (hT1c hT) (fun r hr' => hr r (by simp [hr'])), ?_⟩
+          intro Q hQ
+          simp only [List.map_cons, List.mem_cons, not_or] at hQ
+          rw [i4 Q hQ.2, hT1d Q hQ.1]
+        | cons k0 ks =>
+          simp only [] at h
+          cases hy : y[i]? with
+          | none => simp [hy] at h
+          | some t =>
+            simp only [hy] at h
+            obtain ⟨i1, i2, i3, i4⟩ := ih _ _ h
+            refine ⟨fun hT => i1 ?_, fun hT => i2 ?_, fun hT hr => ?_, ?_⟩
+            · intro Q hQ
+              have hQP : Q ≠ P := by intro h'; rw [h'] at hQ; exact hQ hk
+              rw [lookup_foldl_setInner_ne P Q t hQP]
+              exact hT1a Q hT hQ
+            · intro e he hne
+              rcases mem_foldl_setInner P t _ _ e he with h' | h'
+              · rw [h']; exact hk
+              · exact hT1b hT e h' hne
+            · have := hr (P, k0 :: ks) (by simp) hk
+              simp at this
+            · intro Q hQ
+              simp only [List.map_cons, List.mem_cons, not_or] at hQ
+              rw [i4 Q hQ.2, lookup_foldl_setInner_ne P Q t hQ.1, hT1d Q hQ.1]
+    · simp only [hk, if_false] at h
+      obtain ⟨i1, i2, i3, i4⟩ := ih _ _ h
+      refine ⟨fun hT => i1 (fun Q hQ => hT1a Q hT hQ), fun hT => i2 (hT1b hT),
+        fun hT hr => i3 (hT1c hT) (fun r hr' => hr r (by simp [hr'])), ?_⟩
+      intro Q hQ
+      simp only [List.map_cons, List.mem_cons, not_or] at hQ
+      rw [i4 Q hQ.2, hT1d Q hQ.1]
+
+/-- a primitive rule with alternatives has a non-empty entry -/
+theorem primTagsU_nonempty (sym : AList DP Nat) (y : List ℝ) :
+    ∀ (rows : List (DP × List Alt)) (T T' : TagsU), (rows.map (·.1)).Nodup →
+      primTagsU sym y rows T = some T' →
+      ∀ r ∈ rows, r.1.kind = .prim → r.2 ≠ [] → ∃ d, AList.lookup r.1 T' = some d ∧ d ≠ [] := by
+  intro rows
+  induction rows with
+  | nil => intro T T' _ _ r hr; simp at hr
+  | cons row rest ih =>
+    obtain ⟨P, alts⟩ := row
+    intro T T' hnd h r hr hk hne
+    rw [List.map_cons] at hnd
+    have hnd' := List.nodup_cons.mp hnd
+    rcases List.mem_cons.mp hr with h' | h'
+    · subst h'
+      have hk' : P.kind = .prim := hk
+      have hne' : alts ≠ [] := hne
+      simp only [primTagsU, hk', if_true] at h
+      cases hs : sym.lookup P with
+      | none => simp [hs] at h
+      | some i =>
+        simp only [hs] at h
+        cases alts with
+        | nil => exact absurd rfl hne'
+        | cons k0 ks =>
+          simp only [] at h
+          cases hy : y[i]? with
+          | none => simp [hy] at h
+          | some t =>
+            simp only [hy] at h
+            obtain ⟨_, _, _, i4⟩ := primTagsU_inv sym y rest _ _ h
+            show ∃ d, AList.lookup P T' = some d ∧ d ≠ []
+            rw [i4 P hnd'.1]
+            exact lookup_foldl_setInner_self P t (k0 :: ks) _ (by simp)
+    · -- the rule is in the rest
+      simp only [primTagsU] at h
+      by_cases hkP : P.kind = .prim
+      · simp only [hkP, if_true] at h
+        cases hs : sym.lookup P with
+        | none => simp [hs] at h
+        | some i =>
+          simp only [hs] at h
+          cases alts with
+          | nil => simp only [] at h; exact ih _ _ hnd'.2 h r h' hk hne
+          | cons k0 ks =>
+            simp only [] at h
+            cases hy : y[i]? with
+            | none => simp [hy] at h
+            | some t => simp only [hy] at h; exact ih _ _ hnd'.2 h r h' hk hne
+      · simp only [hkP, if_false] at h
+        exact ih _ _ hnd'.2 h r h' hk hne
+
+theorem inner_pos {d : AList Alt ℝ} (h : d ≠ []) : 0 < inner d := by
+  cases d with
+  | nil => exact absurd rfl h
+  | cons p r =>
+    have h1 := inner_nonneg r
+    have h2 : 0 < Real.exp p.2 := Real.exp_pos _
+    simp only [inner, wsum_cons] at h1 ⊢
+    linarith
+
+theorem massU'_pos_of_mem {T : TagsU} {e : DP × AList Alt ℝ} (he : e ∈ T) (hne : e.2 ≠ []) :
+    0 < massU' (fun _ => true) T := by
+  induction T with
+  | nil => simp at he
+  | cons p r ih =>
+    simp only [massU', wsum_cons, if_true]
+    have hr := massU'_nonneg r
+    simp only [massU'] at hr
+    rcases List.mem_cons.mp he with h | h
+    · subst h; have := inner_pos hne; simp only [if_true] at hr; linarith
+    · have := ih h; simp only [massU', if_true] at this hr; have := inner_nonneg p.2; linarith
+
+theorem massU'_zero_of_empty {T : TagsU} (h : ∀ e ∈ T, e.2 = []) : massU' (fun _ => true) T = 0 := by
+  induction T with
+  | nil => simp [massU']
+  | cons p r ih =>
+    have := ih (fun e he => h e (by simp [he]))
+    simp only [massU', wsum_cons, if_true] at this ⊢
+    rw [this, h p (by simp)]; simp [inner]
+
+theorem mem_pairsOf {l : List (DP × List Alt)} {p : DP × Alt} :
+    p ∈ pairsOf l ↔ ∃ r ∈ l, p.1 = r.1 ∧ p.2 ∈ r.2 := by
+  unfold pairsOf
+  simp only [List.mem_flatMap, List.mem_map]
+  constructor
+  · rintro ⟨r, hr, k, hk, rfl⟩; exact ⟨r, hr, rfl, hk⟩
+  · rintro ⟨r, hr, h1, h2⟩; exact ⟨r, hr, p.2, h2, by rw [← h1]⟩
+
+theorem pairsOf_nodup : ∀ (l : List (DP × List Alt)), (l.map (·.1)).Nodup → (∀ r ∈ l, r.2.Nodup) →
+    (pairsOf l).Nodup := by
+  intro l
+  induction l with
+  | nil => intro _ _; simp [pairsOf]
+  | cons p r ih =>
+    intro hk ha
+    rw [List.map_cons] at hk
+    have hk' := List.nodup_cons.mp hk
+    have : pairsOf (p :: r) = p.2.map (fun k => (p.1, k)) ++ pairsOf r := by simp [pairsOf]
+    rw [this, List.nodup_append]
+    refine ⟨?_, ih hk'.2 (fun q hq => ha q (by simp [hq])), ?_⟩
+    · exact (ha p (by simp)).map (fun a b hab => by simpa using hab)
+    · intro a haa b hb hab
+      subst hab
+      simp only [List.mem_map] at haa
+      obtain ⟨k, _, rfl⟩ := haa
+      obtain ⟨q, hq, h1, _⟩ := mem_pairsOf.mp hb
+      apply hk'.1
+      simp only [List.mem_map]
+      exact ⟨q, hq, h1.symm⟩
+
+theorem countAlts_pos_iff (k : Kind) (rows : AList DP (List Alt)) :
+    0 < countAlts k rows ↔ ∃ r ∈ rows, r.1.kind = k ∧ r.2 ≠ [] := by
+  unfold countAlts
+  rw [nAlts_eq, List.length_pos_iff_exists_mem]
+  constructor
+  · rintro ⟨p, hp⟩
+    obtain ⟨r, hr, _, h2⟩ := mem_pairsOf.mp hp
+    simp only [List.mem_filter, kindIs, decide_eq_true_eq] at hr
+    exact ⟨r, hr.1, hr.2, List.ne_nil_of_mem h2⟩
+  · rintro ⟨r, hr, hk, hne⟩
+    obtain ⟨a, ha⟩ := List.exists_mem_of_ne_nil _ hne
+    exact ⟨(r.1, a), mem_pairsOf.mpr ⟨r, by simp [List.mem_filter, kindIs, hr, hk], rfl, ha⟩⟩
+
+/-- One entry of `tensor2logProbU`: the `sel`-mass of the tags of the non-terminal. -/
+theorem tagEntryU_mass (L : Layer) (v ε : ℝ) (tvo : Bool) (x : List ℝ)
+    (e : NT × AList DP (List Alt)) (t : NT × TagsU)
+    (h : tagEntryU L v ε tvo x e = some t)
+    (hv0 : 0 < v) (hv1 : v < 1) (hε : 0 ≤ ε) (hnd : (AList.keys e.2).Nodup)
+    (halts : ∀ r ∈ e.2, r.2.Nodup)
+    (sel : DP → Bool) (bp b : Bool)
+    (hselp : ∀ P : DP, P.kind = .prim → sel P = bp) (hselv : ∀ P : DP, P.kind ≠ .prim → sel P = b) :
+    t.1 = e.1 ∧
+    (0 < countAlts .var e.2 + countAlts .const e.2 →
+      hypEps v ε tvo (decide (0 < countAlts .prim e.2)) (countAlts .var e.2) (countAlts .const e.2) = true →
+      massU' sel t.2 = (if bp then 1 - (if 0 < countAlts .prim e.2 then v else 1) else 0)
+        + (if b then (if 0 < countAlts .prim e.2 then v else 1)
+                      - epsTerm ε tvo (countAlts .var e.2) (countAlts .const e.2) else 0)) ∧
+    (countKind .var e.2 + countKind .const e.2 = 0 → 0 < countAlts .prim e.2 →
+      massU' sel t.2 = if bp then 1 else 0) := by
+  unfold tagEntryU at h
+  cases h1 : AList.lookup e.1 L.real2abs with
+  | none => simp [h1] at h
+  | some key =>
+    cases h2 : AList.lookup key L.abs2index with
+    | none => simp [h1, h2] at h
+    | some idx =>
+      obtain ⟨start, length, sym⟩ := idx
+      simp only [h1, h2] at h
+      cases h3 : primTagsU sym (slice x start length) e.2 [] with
+      | none => simp [h3] at h
+      | some tags0 =>
+        simp only [h3, Option.some.injEq] at h
+        subst h
+        obtain ⟨i1, i2, i3, _⟩ := primTagsU_inv sym (slice x start length) e.2 [] tags0 h3
+        have inv1 := i1 (by intro Q _; simp [AList.lookup])
+        have inv2 := i2 (by intro e' he'; simp at he')
+        have hkeys : AList.keys e.2 = e.2.map (·.1) := rfl
+        have hposiff : 0 < massU' (fun _ => true) tags0 ↔ 0 < countAlts .prim e.2 := by
+          rw [countAlts_pos_iff]
+          constructor
+          · intro hpos
+            by_contra hcon
+            have hall : ∀ r ∈ e.2, r.1.kind = .prim → r.2 = [] := by
+              intro r hr hk
+              by_contra hne
+              exact hcon ⟨r, hr, hk, hne⟩
+            have := massU'_zero_of_empty (i3 (by intro e' he'; simp at he') hall)
+            linarith
+          · rintro ⟨r, hr, hk, hne⟩
+            obtain ⟨d, hd, hdne⟩ := primTagsU_nonempty sym (slice x start length) e.2 [] tags0
+              (by rw [← hkeys]; exact hnd) h3 r hr hk hne
+            exact massU'_pos_of_mem (AList.lookup_some_mem hd) hdne
+        have hvp : vpOfU v tags0 = (if 0 < countAlts .prim e.2 then v else 1) := by
+          unfold vpOfU
+          by_cases hp : 0 < countAlts .prim e.2
+          · simp [hp, hposiff.mpr hp]
+          · have : ¬ 0 < massU' (fun _ => true) tags0 := fun h' => hp (hposiff.mp h')
+            simp [hp, this]
+        have hselp' : ∀ e' ∈ tags0, e'.2 ≠ [] → sel e'.1 = bp := fun e' he' hne => hselp _ (inv2 e' he' hne)
+        set vars := e.2.filter (fun p => kindIs .var p.1) with hvars
+        set consts := e.2.filter (fun p => kindIs .const p.1) with hconsts
+        have hkindV : ∀ p ∈ pairsOf vars, p.1.kind = .var := by
+          intro p hp
+          obtain ⟨r, hr, h1', _⟩ := mem_pairsOf.mp hp
+          simp only [hvars, List.mem_filter, kindIs, decide_eq_true_eq] at hr
+          rw [h1']; exact hr.2
+        have hkindC : ∀ p ∈ pairsOf consts, p.1.kind = .const := by
+          intro p hp
+          obtain ⟨r, hr, h1', _⟩ := mem_pairsOf.mp hp
+          simp only [hconsts, List.mem_filter, kindIs, decide_eq_true_eq] at hr
+          rw [h1']; exact hr.2
+        have hkindVC : ∀ p ∈ pairsOf vars ++ pairsOf consts, p.1.kind ≠ .prim := by
+          intro p hp
+          rcases List.mem_append.mp hp with h' | h'
+          · rw [hkindV p h']; decide
+          · rw [hkindC p h']; decide
+        refine ⟨rfl, ?_, ?_⟩
+        · intro hMC hhyp
+          have hsubV : ((vars.map (·.1))).Nodup :=
+            hnd.sublist ((List.filter_sublist (l := e.2)).map _)
+          have hsubC : ((consts.map (·.1))).Nodup :=
+            hnd.sublist ((List.filter_sublist (l := e.2)).map _)
+          have hndV := pairsOf_nodup vars hsubV (fun r hr => halts r (List.mem_of_mem_filter hr))
+          have hndC := pairsOf_nodup consts hsubC (fun r hr => halts r (List.mem_of_mem_filter hr))
+          have hndall : (pairsOf vars ++ pairsOf consts).Nodup := by
+            rw [List.nodup_append]
+            refine ⟨hndV, hndC, ?_⟩
+            intro a ha b' hb hab
+            subst hab
+            have := hkindV a ha
+            rw [hkindC a hb] at this
+            exact absurd this (by decide)
+          have hfresh : ∀ p ∈ pairsOf vars ++ pairsOf consts, innerLookup tags0 p.1 p.2 = none := by
+            intro p hp
+            unfold innerLookup
+            rw [inv1 p.1 (hkindVC p hp)]; rfl
+          have hvc : vars ≠ [] ∨ consts ≠ [] := by
+            by_contra hcon
+            simp only [not_or, ne_eq, not_not] at hcon
+            unfold countAlts at hMC
+            rw [← hvars, ← hconsts, hcon.1, hcon.2] at hMC
+            simp [nAlts] at hMC
+          have heps := hypEps_real hv0 hMC hhyp
+          have hMV : countAlts .var e.2 = nAlts vars := rfl
+          have hMCc : countAlts .const e.2 = nAlts consts := rfl
+          have heps' : (nAlts vars : ℝ) * eff tvo ε * ((nAlts vars : ℝ) + nAlts consts) < vpOfU v tags0 := by
+            rw [hvp, ← hMV, ← hMCc]
+            simpa using heps
+          have := tagNTU_mass_vars v ε tvo tags0 vars consts hv0 hv1 hε hndall hfresh hvc
+            (by rw [← hMV, ← hMCc]; exact hMC) heps' sel bp b hselp'
+            (fun p hp => hselv _ (hkindVC p hp))
+          rw [this, hvp, epsTerm_real, ← hMV, ← hMCc]
+        · intro hmc hnp
+          have hv : vars = [] := by
+            unfold countKind at hmc
+            have h0 : ((AList.keys e.2).filter (kindIs .var)).length = 0 := by omega
+            have := List.eq_nil_of_length_eq_zero h0
+            rw [hvars]
+            apply List.eq_nil_iff_forall_not_mem.mpr
+            intro p hp
+            simp only [List.mem_filter] at hp
+            have hmem : p.1 ∈ (AList.keys e.2).filter (kindIs .var) := by
+              simp only [List.mem_filter, AList.keys, List.mem_map]
+              exact ⟨⟨p, hp.1, rfl⟩, hp.2⟩
+            rw [this] at hmem; simp at hmem
+          have hc : consts = [] := by
+            unfold countKind at hmc
+            have h0 : ((AList.keys e.2).filter (kindIs .const)).length = 0 := by omega
+            have := List.eq_nil_of_length_eq_zero h0
+            rw [hconsts]
+            apply List.eq_nil_iff_forall_not_mem.mpr
+            intro p hp
+            simp only [List.mem_filter] at hp
+            have hmem : p.1 ∈ (AList.keys e.2).filter (kindIs .const) := by
+              simp only [List.mem_filter, AList.keys, List.mem_map]
+              exact ⟨⟨p, hp.1, rfl⟩, hp.2⟩
+            rw [this] at hmem; simp at hmem
+          rw [hv, hc]
+          exact tagNTU_mass_novars v ε tvo tags0 (hposiff.mpr hnp) sel bp hselp'
+
+end ULayer
+
+/-! ### grammar level: U-layer sums, start tags, consistency, encode -/
+section UGrammar
+
+theorem wfAlts_mem {rules : AList NT (AList DP (List Alt))} (h : wfAlts rules = true) :
+    ∀ e ∈ rules, ∀ r ∈ e.2, r.2.Nodup := by
+  intro e he r hr
+  unfold wfAlts at h
+  rw [List.all_eq_true] at h
+  have := h e he
+  rw [List.all_eq_true] at this
+  simpa using this r hr
+
+theorem massU_filter_eq (sel : DP → Bool) (T : TagsU) :
+    massU (T.filter (fun e => sel e.1)) = massU' sel T := by
+  rw [massU_eq]
+  induction T with
+  | nil => simp [massU']
+  | cons p r ih =>
+    simp only [massU', wsum_cons, if_true] at ih ⊢
+    by_cases hs : sel p.1
+    · simp only [List.filter_cons, hs, if_true, wsum_cons]; rw [← ih]
+    · simp only [List.filter_cons, hs, Bool.false_eq_true, if_false]; rw [← ih]; simp
+
+theorem wsum_exp_map_add {κ : Type} [DecidableEq κ] (a : ℝ) (d : AList κ ℝ) :
+    wsum (fun _ t => Real.exp t) (d.map (fun z => (z.1, z.2 + a))) = Real.exp a * wsum (fun _ t => Real.exp t) d := by
+  induction d with
+  | nil => simp
+  | cons p r ih =>
+    simp only [List.map_cons, wsum_cons] at ih ⊢
+    rw [ih, Real.exp_add]; ring
+
+theorem wsum_exp_pos {κ : Type} [DecidableEq κ] {d : AList κ ℝ} (h : d ≠ []) : 0 < wsum (fun _ t => Real.exp t) d := by
+  cases d with
+  | nil => exact absurd rfl h
+  | cons p r =>
+    have h1 : 0 ≤ wsum (fun (_ : κ) t => Real.exp t) r := by
+      unfold wsum
+      apply List.sum_nonneg
+      intro x hx
+      simp only [List.mem_map] at hx
+      obtain ⟨e, _, rfl⟩ := hx
+      exact Real.exp_nonneg _
+    have h2 : 0 < Real.exp p.2 := Real.exp_pos _
+    simp only [wsum_cons]
+    linarith
+
+/-- start tags: `z + log(1 / Σ exp z)` sums to one -/
+theorem startTags_norm (L : Layer) (starts : List NT) (x : List ℝ) (st : AList NT ℝ)
+    (h : startTagsU L starts x = some st) (hne : st ≠ []) :
+    sumL (st.map (fun e => (ExpLog.exp e.2 : ℝ))) = 1 := by
+  unfold startTagsU at h
+  simp only [] at h
+  split at h
+  · simp at h
+  · rename_i d _
+    simp only [Option.some.injEq] at h
+    subst h
+    have hd : d ≠ [] := by intro hd; subst hd; simp at hne
+    rw [sumL_eq, sumL_eq]
+    have e1 : (List.map (fun e : NT × ℝ => (ExpLog.exp e.2 : ℝ)) d).sum = wsum (fun _ t => Real.exp t) d := by
+      simp [wsum]
+    rw [e1]
+    have hpos := wsum_exp_pos hd
+    have e2 : (List.map (fun e : NT × ℝ => (ExpLog.exp e.2 : ℝ))
+        (List.map (fun e : NT × ℝ => (e.1, e.2 + ExpLog.log (ExpLog.ofNat 1 / wsum (fun _ t => Real.exp t) d))) d)).sum
+        = wsum (fun _ t => Real.exp t)
+            (d.map (fun z => (z.1, z.2 + Real.log (1 / wsum (fun _ t => Real.exp t) d)))) := by
+      simp [wsum]
+    rw [e2, wsum_exp_map_add, Real.exp_log (by positivity)]
+    field_simp
+
+theorem forall₂_mem_right {β γ : Type} {R : β → γ → Prop} :
+    ∀ {l : List β} {r : List γ}, List.Forall₂ R l r → ∀ y ∈ r, ∃ x ∈ l, R x y := by
+  intro l r h
+  induction h with
+  | nil => intro y hy; simp at hy
+  | cons hab _ ih =>
+    intro y hy
+    rcases List.mem_cons.mp hy with h' | h'
+    · subst h'; exact ⟨_, by simp, hab⟩
+    · obtain ⟨x, hx, hr⟩ := ih y h'; exact ⟨x, by simp [hx], hr⟩
+
+theorem tagU_exp (tags : AList NT TagsU) (st : StepU) :
+    tagU (expTagsU tags) st = (tagU tags st).map Real.exp := by
+  unfold tagU expTagsU
+  rw [lookup_map_val (fun (d : TagsU) => d.map (fun dd => (dd.1, dd.2.map (fun z => (z.1, (ExpLog.exp z.2 : ℝ)))))) st.S tags]
+  cases AList.lookup st.S tags with
+  | none => rfl
+  | some d =>
+    simp only [Option.map_some]
+    rw [lookup_map_val (fun (a : AList Alt ℝ) => a.map (fun z => (z.1, (ExpLog.exp z.2 : ℝ)))) st.P d]
+    cases AList.lookup st.P d with
+    | none => rfl
+    | some a =>
+      simp only [Option.map_some]
+      exact lookup_map_val (fun t : ℝ => (ExpLog.exp t : ℝ)) st.v a
+
+theorem fold_add_mul_U (tags : AList NT TagsU) :
+    ∀ (l : List StepU) (a r : ℝ),
+      foldlO (addTagU tags) a l = some r →
+      foldlO (mulTagU (expTagsU tags)) (Real.exp a) l = some (Real.exp r) := by
+  intro l
+  induction l with
+  | nil => intro a r h; simp [foldlO] at h ⊢; rw [h]
+  | cons sp rest ih =>
+    intro a r h
+    simp only [foldlO, addTagU, mulTagU] at h ⊢
+    rw [tagU_exp]
+    cases ht : tagU tags sp with
+    | none => simp [ht] at h
+    | some w =>
+      simp only [ht, Option.map_some] at h ⊢
+      have := ih (a + w) r h
+      rwa [Real.exp_add] at this
+
+theorem consistent_u (rules : AList NT (AList DP (List Alt))) (starts : List NT)
+    (tags : AList NT TagsU) (st : AList NT ℝ) (t : Prog) (lp : ℝ)
+    (h : logProbabilityU rules starts tags st t = some lp) :
+    ∃ S0 ∈ starts, ∃ d ∈ altsU rules t S0 [],
+      derivWeightU (expTagsU tags) (expStartU st) S0 d = some (Real.exp lp) := by
+  unfold logProbabilityU at h
+  split at h
+  · simp at h
+  · rename_i rs hrs
+    have hmem : lp ∈ rs.flatten := List.mem_of_mem_head? (by rw [h]; simp)
+    obtain ⟨r, hr, hlp⟩ := List.mem_flatten.mp hmem
+    obtain ⟨S0, hS0, hf⟩ := forall₂_mem_right (allSomeL_forall₂ _ _ _ hrs) r hr
+    refine ⟨S0, hS0, ?_⟩
+    cases hs : AList.lookup S0 st with
+    | none => simp [hs] at hf
+    | some s =>
+      simp only [hs] at hf
+      unfold reduceU at hf
+      obtain ⟨d, hd, hfd⟩ := forall₂_mem_right (allSomeL_forall₂ _ _ _ hf) lp hlp
+      refine ⟨d, hd, ?_⟩
+      unfold derivWeightU expStartU
+      rw [lookup_map_val (fun t : ℝ => (ExpLog.exp t : ℝ)) S0 st, hs]
+      simp only [Option.map_some]
+      have := fold_add_mul_U tags d _ _ hfd
+      simpa using this
+
+theorem foldlO_map {β γ δ : Type} (f : β → δ → Option β) (g : γ → δ) (b : β) (l : List γ) :
+    foldlO (fun b x => f b (g x)) b l = foldlO f b (l.map g) := by
+  induction l generalizing b with
+  | nil => rfl
+  | cons x xs ih =>
+    simp only [foldlO, List.map_cons]
+    cases f b (g x) with
+    | none => rfl
+    | some b' => exact ih b'
+
+/-- every step of every derivation of `t` from every start symbol -/
+def allStepsU (rules : AList NT (AList DP (List Alt))) (starts : List NT) (t : Prog) : List (NT × DP) :=
+  ((starts.map (fun S0 => (altsU rules t S0 []).flatten)).flatten).map (fun st => (st.S, st.P))
+
+theorem encode_u (L : Layer) (rules : AList NT (AList DP (List Alt))) (starts : List NT) (t : Prog)
+    (out : List ℕ) (h : encodeU L rules starts t = some out) :
+    out = indicator L.outputSize (positionsOf L (allStepsU rules starts t))
+      ∧ ∀ p ∈ positionsOf L (allStepsU rules starts t), p < L.outputSize := by
+  unfold encodeU at h
+  rw [← indicator_nil] at h
+  have h' : foldlO (fun o (sp : NT × DP) => encStep L o sp.1 sp.2) (indicator L.outputSize [])
+      (allStepsU rules starts t) = some out := by
+    unfold allStepsU
+    rw [← foldlO_map (fun o (sp : NT × DP) => encStep L o sp.1 sp.2) (fun st : StepU => (st.S, st.P))]
+    exact h
+  obtain ⟨r1, r2⟩ := encode_fold L L.outputSize _ [] _ h'
+  exact ⟨by simpa using r1, r2⟩
+
+end UGrammar
+
 end PS.Predictor
